@@ -9,6 +9,18 @@ NOTE = ("Trusted: Lean 4.33 kernel; axioms propext/Classical.choice/Quot.sound o
 
 # id -> dict(text=, note=, technique=, design=)   (claimed properties)
 CLAIMED = {
+ "C03": dict(
+  text="Spec/HasType.lean states the SMT-LIB sorting discipline independently of pySMT (inductive HasType/HasTypes with a computable characterisation sortOf); Lean theorems: typeOf_unique, hasType_iff_sortOf (full); typeOf_sound_partial (the model of SimpleTypeChecker accepts only well-sorted terms, under the decidable exclusion noF06 — arity/payload shapes the checker does not look at, Pow on equal non-numeric sorts, bound-variable lists; one decide-d witness per exclusion shows the unrestricted statement false), typeOf_complete_partial (under rotInRange: pySMT deliberately rejects rotate k > width), typeOf_eq_sortOf_partial, created_all_wt (invariant over EVERY history of create_node calls: whatever is returned is well-typed), created_all_hasType_partial, createNode_rejects_illsorted_partial, createNode_accepts_partial. Tied to the code EXHAUSTIVELY over grids: create_node on all 66 node types x every argument-sort tuple over a 14-sort universe up to arity 3 (4-5 for n-ary) x payload corners, and every FormulaManager constructor x sort tuples x value corners, each outcome compared with the Lean typeOf/wt; searched with an independent Python implementation of the sorting rules (cross-checked against Lean sortOf on every term) and on the outputs of eight transformations.",
+  note="Model boundary (counted, listed): raw create_node calls with wrong arity/payload shape that no constructor produces. Known findings F05a-c, F06e, F41-F44 are matched on operator + argument sorts.",
+  technique="Lean 4 soundness/completeness of the type-checker model against an independent sorting relation + exhaustive operator x sort-tuple grid"),
+ "C06": dict(
+  text="Impl/Mk.lean models every FormulaManager constructor (primitive and derived) exactly as formula.py rewrites it; the infix/method dispatch of fnode.py is REGENERATED into Gen/Infix.lean by tools/gen_infix.py (ast translation of all 70 methods) on every run. 82 Lean theorems, one _denotes theorem per derived form, for ALL arities, widths and argument values (list induction; core BitVec lemmas at arbitrary width, no bv_decide): ge/gt/ne/xor/equalsOrIff, atMostOne/exactlyOne/allDifferent, min/max (+BV signed/unsigned; the halving recursion proved once for an abstract total preorder), plus/times/div/toReal/abs, sbv_denotes + sbv_refused_iff, bvNary/bvConcat, ugt/uge/sgt/sge, nand/nor/xnor, bvsmod_std/bvsmod_core/bvsmod_arith (toInt = fmod), repeat, rotate/extend/extract/comp/toNatural, shiftInt_denotes_partial (0 <= k < 2^w; outside that BV() refuses: shiftInt_refused), infix_table_conforms (decide over the regenerated table), manager_denotes, infix_table_denotes and per-dunder theorems. Tied to the code by literal comparison of the built formula (91 constructors, 67 infix methods, arities 0-6, ill-sorted operands, literals in/out of range) and searched by evaluating the implementation-built formula with the Lean reference semantics against hand-written Python oracles: exhaustive for Boolean arguments up to arity 6 and bit-vectors up to width 3 (quick) / 4 (thorough).",
+  note="Infix notation assumed enabled; Symbol/FreshSymbol/normalize belong to C04.",
+  technique="Lean 4 denotation proofs per derived constructor + regenerated infix dispatch table + exhaustive small-domain evaluation"),
+ "C07": dict(
+  text="Spec/Sexp.lean (standard-conformant SMT-LIB 2.6 lexer/reader/renderer) and Spec/SmtlibText.lean (the standard's elaboration readStd of text to terms: parallel let, binders, indexed identifiers, chainable/assoc/pairwise operators, numeral typing by logic, strictly sorted; command-level runStd rejecting use-before-declaration and re-declaration) are written from the standard, not from pySMT. Impl/Printer.lean models SmtPrinter / SmtDagPrinter / quote / as_smtlib / smtlibscript_from_formula; the operator spelling table is REGENERATED from printers.py by tools/gen_printerops.py. Theorems: printerOps_std (every spelling in the regenerated table is the standard's name, minus the listed known findings), sexp_tokens_rt, render_read (character level, whole lexicon), quote_std, read_toSexp (readStd (toSexp t) = t up to array-value/store-chain unfolding — the strong form used by C09), print_sound_partial (needs avOrdered; parametric sorts excluded), decls_before_use_partial (runStd accepts scriptOfFormula; every sort and free symbol declared exactly once before the assert), printDag_sound_partial (let chain over fresh .def_k names; the memo invariant is checked by K/S, not proved). Tied to the code by reading the implementation's text (tree, DAG, script serialisation, write_smtlib) with the Lean standard reader and comparing S-expressions with the model; searched by evaluating the implementation's text with readStd + eval under sampled interpretations and by running serialised scripts through runStd.",
+  note="Known findings F10 (integer division printed '/'), F11 (str.to.int / int.to.str), F44 (pow), F45 (names containing | or backslash), F46 (non-ASCII string literals) are matched on the offending token.",
+  technique="Lean 4 read-after-print proofs against an independent standard reader + regenerated spelling table + differential S-expression comparison"),
  "C01": dict(
   text="Lean model of the simplifier as a rule table (Impl/Simp/*: one rule per Simplifier.walk_*, same case order and guards) with a generic assembly theorem simpWith_correct: if every table entry is locally correct (RuleOK: type, value under every well-formed interpretation that evaluates no division by zero, free symbols) then simp preserves type, well-formedness, value and introduces no symbol — simp_type_partial, simp_wf_partial, simp_sound_partial, simp_div0_partial, simp_fv_subset_partial, for every term in the modelled fragment (inFrag; the operator families whose RuleOK proofs are complete — listed by fragment_ops and recorded in the evidence on every run; hence _partial), simp_any_order_partial (holds for every re-ordering of and/or/times results, which covers the implementation's set-iteration / node-id orders), eval_sort (eval is type-sound on all 66 operators). Tied to the code three ways on every run: K1 replays every walk_x(formula, args) call of the real simplifier on the Lean rule with the implementation's own arguments; K2 compares whole-formula results; S checks the property itself on the real simplifier's output with the Lean reference semantics (type, fv, value under sampled interpretations) over a rule-directed stream (every operator x guard-derived shape classes x widths) and a random stream with quantifiers and UF.",
   note="pow and algebraic constants are outside the semantics (known findings F05a/b). Operators outside inFrag are covered by K1/K2/S only. Arrays: finitely supported interpretations; reals are rationals; Int/Real quantifiers executed over small finite domains (proved for every non-empty domain).",
